@@ -24,6 +24,10 @@ def put_on_fs(b, fsname, tag):
         return "memory://" + root
     if fsname == "vtrace":
         return tracefs.put_product(f"p{os.getpid()}_{tag}", b.files)
+    if fsname == "vtrace-buffered":   # an object-store style file system: files are fsspec AbstractBufferedFile objects
+        url = tracefs.put_product(f"p{os.getpid()}_{tag}", b.files)
+        tracefs.BUFFERED.add(tracefs.norm(url))
+        return url
     if fsname == "local%":   # a directory name with characters that mean something to string formatting / URL quoting
         return b.write(os.path.join(checklib.fresh_dir("prod_"), "ALOS2%20data 100%d", "50%_done"))
     if fsname in ("zip", "tar"):   # the product as a folder inside an archive, opened through fsspec's chained URLs
@@ -67,8 +71,9 @@ def drop_from_fs(url, fsname):
             fs.rm(url[len("memory://"):], recursive=True)
         except Exception:
             pass
-    elif fsname == "vtrace":
+    elif fsname in ("vtrace", "vtrace-buffered"):
         tracefs.remove(url)
+        tracefs.BUFFERED.discard(tracefs.norm(url))
     elif fsname in ("zip", "tar"):
         import shutil
 
